@@ -51,6 +51,7 @@ pub fn check_cmd(args: &[String]) -> i32 {
     let mut rep = match a.prop.as_str() {
         "C01" => c01(&a),
         "C02" => c02(&a),
+        "C03" => c03(&a),
         "C04" => c04(&a),
         "C07" => c07(&a),
         "C10" => c10(&a),
@@ -354,4 +355,48 @@ fn c15(a: &Args) -> Report {
     }
     let results = run_specs(&specs, a, &no_known);
     seq_report("C15", a, "model_checking", results, SEQ_RULE)
+}
+
+fn c03(a: &Args) -> Report {
+    let thorough = a.tier == "thorough";
+    let alphabet = vec![Op::w(0, 1), Op::w(1, 2), Op::w(0, 2), Op::d(0, 2), Op::Rot, Op::TryClose];
+    let mut spec = SeqSpec::new("C03/restart", alphabet, if thorough { 5 } else { 4 });
+    spec.metas = vec![0];
+    let fine_depth = if thorough { 3 } else { 2 };
+    let r = crate::engines::restart::run(&spec, fine_depth, a.threads);
+    let mut violations = Vec::new();
+    let mut machinery = Vec::new();
+    for v in &r.violations {
+        if v.findings.iter().any(|f| f.kind == "machinery") {
+            machinery.push(format!("{v:?}"));
+            continue;
+        }
+        let desc = format!("{} then close, {:?}, reopen lazy={} :: {}", v.history.join(" "), v.damage, v.lazy, v.findings[0].detail);
+        violations.push((json!({"engine": "restart", "history": v.history, "lazy": v.lazy, "damage": v.damage, "findings": v.findings}), desc));
+    }
+    violations.truncate(10);
+    Report {
+        property: "C03".into(),
+        tier: a.tier.clone(),
+        seed: a.seed,
+        level: "model_checking".into(),
+        coverage: json!({
+            "states": r.stats.states,
+            "transitions": r.stats.restarts,
+            "traces_validated_against_impl": r.stats.restarts,
+            "evaluations": r.stats.restarts,
+            "distinct_nontrivial": r.stats.distinct_damaged_dirs,
+            "rule": "states = canonical model states reachable by the alphabet up to the depth; from each: close, one damage of the menu (per index file: removed, cleared written bit, truncated to 0 / header / half / len-1, older generation; all removed; all unwritten; from shallow states every truncation length with and without the written bit), reopen eager and lazy; distinct_nontrivial = distinct damaged directory contents",
+            "samples": r.stats.samples,
+            "exhaustive": true,
+            "fine_sweep_states": r.stats.fine_states,
+            "depth": spec.depth,
+            "fine_depth": fine_depth,
+        }),
+        assumptions: vec!["damage is applied between sessions to index files only".into()],
+        wall_s: 0.0,
+        violations,
+        known: vec![],
+        machinery_errors: machinery,
+    }
 }
